@@ -45,6 +45,7 @@ type Run struct {
 	samples  []any
 	start    time.Time
 	selftest []map[string]any
+	evDir    string
 }
 
 func newRun(prop, tier string, seed int) *Run {
@@ -163,6 +164,9 @@ func (r *Run) Finish(verifDir string, cmd string) int {
 		fmt.Printf("%s: rule %s %s: %s  [key: %s]\n", v.Pos, v.Rule, v.Status, v.Msg, v.Key)
 	}
 	evDir := filepath.Join(verifDir, "evidence")
+	if r.evDir != "" {
+		evDir = r.evDir
+	}
 	os.MkdirAll(evDir, 0o755)
 	status := 0
 	reportPath := filepath.Join(evDir, r.Prop+".report.json")
